@@ -9,7 +9,9 @@ class C14(Check):
     model_desc = ("Model/Serve.v: unpackMsgHdr, defaultMsgAcceptFunc, setHdr / header bit packing, SetReply, SetRcode, "
                   "SetRcodeFormatError, handleRefused, serveUDP's short-packet test and serveDNS (accept action switch, "
                   "reject reply construction) modelled line by line, the accept policy and the full message decoder "
-                  "being parameters; Model/Mux.v: ServeMux.Handle / HandleRemove / match / ServeDNS over an association "
+                  "being parameters; stream framing of serveTCPConn/readTCP (two-octet length, full reads, "
+                  "MaxTCPQueries, stop at the first incomplete frame) as read_frames/serve_stream over the octet "
+                  "stream; Model/Mux.v: ServeMux.Handle / HandleRemove / match / ServeDNS over an association "
                   "list, using CanonicalName and NextLabel from Model/Labels.v")
     rule = ("model cases: defaultMsgAcceptFunc on all 16 opcodes x QR x counts {0,1,2,3,65535}^4 (40000 headers in 64 "
             "sweep cases); serveDNS outcome for generated queries (EDNS, NOTIFY, IXFR, over-populated, two questions, "
@@ -19,7 +21,11 @@ class C14(Check):
             "ServeDNS for generated pattern sets (label suffixes with flipped case, non-boundary text suffixes, escaped "
             "dots and backslashes, root, removal/overwrite) x names x {DS, other}; reply skeletons on random headers. "
             "Every message runs through the real serveUDP/serveTCPConn loops on scripted conns AND through serveDNS "
-            "directly (hook). A case is non-trivial unless it is an ignored/none outcome; distinct by hash.")
+            "directly (hook). Stream histories (1..6 messages of every admission class on one connection, messages of "
+            "255..4096 octets, 128 messages, incomplete last frame) are delivered through the real "
+            "serveTCPConn/readTCP under every segmentation class of the octet stream (at once, octet by octet, cut in "
+            "two at every offset, every length prefix cut in two, fixed sizes, random cuts) with the per-message "
+            "oracles and one model case (read_frames + serve) per history. A case is non-trivial unless it is an ignored/none outcome; distinct by hash.")
     partial = [
         "the message decoder (Msg.unpack) is a parameter of the serve model: 'decodes' means what the real Unpack "
         "returns (its safety is property C02); the theorems hold for every decoder",
@@ -27,6 +33,10 @@ class C14(Check):
         "on the implementation under recover() for every generated message; Go-level memory safety is not proved",
         "concurrent Handle/HandleRemove/ServeDNS (the RWMutex) is observed at run time (4 writers x 4 readers), not "
         "proved: the model of ServeMux is sequential",
+        "segmentation of a stream: the model takes the octet stream (read_frames), so independence of the way the "
+        "transport cuts it into reads holds by construction in the model and is observed on the implementation by "
+        "delivering every history under the segmentations listed in the rule (scripted net.Conn, one segment per "
+        "Read call)",
         "real UDP/TCP sockets: a 10-probe loopback smoke run per transport is runtime observation; the server loops are "
         "otherwise driven through scripted net.PacketConn/net.Listener objects",
         "DS routing is proved as the code does it (root if registered, else the registered ancestor with the fewest "
